@@ -70,6 +70,19 @@ class Op:
         return 'Op(%s)' % self.kind
 
 
+class Lz:
+    """an unknown integer (a byte / code unit of the input) that is only ever compared with constants: it takes, lazily and
+    non-deterministically, one representative of each class of the partition those constants induce"""
+    __slots__ = ('cands', 'v')
+
+    def __init__(self, cands):
+        self.cands = cands
+        self.v = None
+
+    def __repr__(self):
+        return 'Lz(%s)' % (self.v,)
+
+
 class Rec(dict):
     """an object: field (qualified name) -> value; identity matters"""
     __hash__ = object.__hash__
@@ -209,6 +222,13 @@ class Interp:
             a = int(a)
         if isinstance(b, bool):
             b = int(b)
+        for z in (a, b):
+            if isinstance(z, Lz) and z.v is None:
+                z.v = z.cands[self.ch.choose(len(z.cands))]
+        if isinstance(a, Lz):
+            a = a.v
+        if isinstance(b, Lz):
+            b = b.v
         if isinstance(a, Co) and isinstance(b, Co):
             x, y = a.v, b.v
         elif isinstance(a, Df) and isinstance(b, (int, float)) and b == 0:
@@ -280,6 +300,14 @@ class Interp:
             if f is None:
                 self.broken(fn, e, 'integer operator %s' % op)
             return f(a, b)
+        for z in (a, b):
+            if isinstance(z, Lz):
+                other = b if z is a else a
+                if op != '&' or not isinstance(other, int):
+                    self.broken(fn, e, 'an input code unit is used in arithmetic (%s) other than masking with a constant: the value partition is no longer exact' % op)
+                if z.v is None:
+                    z.v = z.cands[self.ch.choose(len(z.cands))]
+                return z.v & other
         if isinstance(a, It) and isinstance(b, int) and op in ('+', '-'):
             return It(a.vec, a.idx + (b if op == '+' else -b), a.gen)
         if isinstance(a, It) and isinstance(b, It) and op == '-':
@@ -517,6 +545,14 @@ class Interp:
                 val[i] = ~s if isinstance(s, int) else Op()
                 return
             self.broken(fn, e, 'unary operator %s' % op)
+        if k == 'ArraySubscriptExpr':
+            base, ix = self.rv(V(c[0])), self.rv(V(c[1]))
+            if isinstance(ix, It) and isinstance(base, int):
+                base, ix = ix, base
+            if isinstance(base, It) and isinstance(ix, int):
+                val[i] = self.deref_it(It(base.vec, base.idx + ix, base.gen), fn, e)
+                return
+            self.broken(fn, e, 'subscript of a %s by a %s' % (type(base).__name__, type(ix).__name__))
         if k == 'ConditionalOperator':
             arms = [x for x in c[1:3] if isinstance(x, int) and x in val]
             # only the arm on the executed path has been evaluated *after* the condition; pick by the condition's truth
